@@ -3,12 +3,13 @@ From Coq Require Import List NArith ZArith Bool String Ascii Lia.
 Require Import Base.Common Tree.Value Tree.Helpers Gen.Schema.
 Import ListNotations.
 
-Lemma all_frozen_b : forallb (fun ci => c_frozen ci && c_eq ci && c_slots ci) schema = true.
+Lemma all_frozen_b : forallb (fun ci => c_frozen ci && c_eq ci && c_slots ci && match c_overrides ci with [] => true | _ => false end) schema = true.
 Proof. vm_compute. reflexivity. Qed.
-Lemma all_frozen : forall ci, In ci schema -> c_frozen ci = true /\ c_eq ci = true /\ c_slots ci = true.
+Lemma all_frozen : forall ci, In ci schema -> c_frozen ci = true /\ c_eq ci = true /\ c_slots ci = true /\ c_overrides ci = [].
 Proof.
   intros ci H. pose proof all_frozen_b as B. rewrite forallb_forall in B. specialize (B ci H).
-  apply andb_true_iff in B as [B B3]. apply andb_true_iff in B as [B1 B2]. auto.
+  apply andb_true_iff in B as [B B4]. apply andb_true_iff in B as [B B3]. apply andb_true_iff in B as [B1 B2].
+  destruct (c_overrides ci); [auto|discriminate].
 Qed.
 
 Definition default_ok (f : finfo) : bool := match f_default f with Some d => no_list d | None => true end.
